@@ -1122,6 +1122,30 @@ func c16Compile(w *World, r *Report) {
 					target = g.Name() + "." + fname
 				}
 			}
+			if target == "" || name == "" {
+				// registered in a loop over a table of targets: variable = a member of the element, name = another member
+				if fa, ok := args[1].(*ssa.FieldAddr); ok {
+					_, fname, _, _ := fieldOf(fa)
+					rows := d.evalOverTable([]ssa.Value{fa.X, args[2]}, &drvEnv{})
+					for label, row := range rows {
+						if label == "" || len(row) != 2 || row[0].Kind != "elem" || row[1].Kind != "str" || d.lastTable == nil {
+							continue
+						}
+						l := d.lastTable.lits[d.labelIndex(label)]
+						if l == nil || l.tname == "" {
+							continue
+						}
+						if fc, ok := args[0].(*ssa.Call); ok && len(fc.Call.Args) > 0 {
+							if ld, ok := fc.Call.Args[0].(*ssa.UnOp); ok {
+								if cg, ok := ld.X.(*ssa.Global); ok {
+									flagOf[cg.Name()+"|"+fmt.Sprintf("%s[%d].%s", l.tname, l.idx, fname)] = row[1].S
+								}
+							}
+						}
+					}
+				}
+				return
+			}
 			if target != "" && name != "" {
 				if fc, ok := args[0].(*ssa.Call); ok && len(fc.Call.Args) > 0 {
 					if ld, ok := fc.Call.Args[0].(*ssa.UnOp); ok {
